@@ -610,3 +610,115 @@ def dc_near(spec) -> t.List[t.Any]:
 
 def serial_scalar_ok(x) -> bool:
     return values.is_interchange(x)
+
+
+class NoModel(Exception):
+    """The serialisation of this node is not fixed by the model (unions, Any, ...)."""
+
+
+def _seq_like(d):
+    return type(d) in (list, tuple)
+
+
+def check_serial(ast, x, d, path='$') -> t.Optional[str]:
+    """Compare into_data output `d` of typed value `x` with the documented serial form (A.7). None = fine."""
+    if isinstance(ast, str):
+        if ast in grammar.DC_SPECS:
+            return _check_serial_dc(grammar.DC_SPECS[ast], x, d, path)
+        if ast in ('int', 'float', 'complex', 'str', 'bytes', 'bool', 'none', 'lit_str', 'lit_mixed'):
+            want = x
+        elif ast == 'bytearray':
+            return None if type(d) in (bytes, bytearray) and bytes(d) == bytes(x) else f"{path}: expected the bytes {bytes(x)!r}, got {d!r}"
+        elif ast in ('sub_str', 'sub_int', 'sub_float'):
+            want = {'sub_str': str, 'sub_int': int, 'sub_float': float}[ast](x)
+        elif ast in ('decimal', 'fraction', 'purepath', 'pureposixpath', 'path', 'pathlike'):
+            want = str(x)
+        elif ast in ('date', 'time', 'datetime'):
+            want = x.isoformat()
+        elif ast in ('pattern', 'pattern_bytes'):
+            want = x.pattern
+        elif ast in ('enum_int', 'enum_str', 'enum_mixed'):
+            want = x.value
+        else:
+            return None          # any / bare containers / container subclasses: serialised by runtime type, not modelled
+        if not values.typed_eq(want, d):
+            return f"{path}: expected {want!r} ({type(want).__name__}), got {d!r} ({type(d).__name__})"
+        return None
+    c = ast[0]
+    if c in _SEQ_IMAGE:
+        if not _seq_like(d):
+            return f"{path}: expected a sequence, got {type(d).__name__}"
+        xs = list(x)
+        if len(xs) != len(d):
+            return f"{path}: {len(d)} elements for {len(xs)} members"
+        if c in ('set', 'frozenset'):
+            # order is free: match greedily by model check
+            rest = list(d)
+            for e in xs:
+                for i, g in enumerate(rest):
+                    if check_serial(ast[1], e, g, path) is None:
+                        del rest[i]
+                        break
+                else:
+                    return f"{path}: no serialised element corresponds to member {e!r} (got {d!r})"
+            return None
+        for i, (e, g) in enumerate(zip(xs, d)):
+            r = check_serial(ast[1], e, g, f"{path}[{i}]")
+            if r:
+                return r
+        return None
+    if c in ('tuple', 'tuplelit'):
+        if not _seq_like(d) or len(d) != len(ast) - 1:
+            return f"{path}: expected a sequence of length {len(ast) - 1}, got {d!r}"
+        for i, (a, e, g) in enumerate(zip(ast[1:], x, d)):
+            r = check_serial(a, e, g, f"{path}[{i}]")
+            if r:
+                return r
+        return None
+    if c == 'struct':
+        if type(d) is not dict or set(d) != set(x):
+            return f"{path}: expected a dict with keys {sorted(x)}, got {d!r}"
+        decl = dict((kk, a) for kk, a in ast[1:])
+        for kk, e in x.items():
+            r = check_serial(decl[kk], e, d[kk], f"{path}[{kk!r}]")
+            if r:
+                return r
+        return None
+    if c in _MAP_IMAGE:
+        if type(d) is not dict or len(d) != len(x):
+            return f"{path}: expected a dict with {len(x)} entries, got {d!r}"
+        vast = ast[2] if c != 'counter' else 'int'
+        items = list(d.items())
+        for (kk, e), (dk, dv) in zip(x.items(), items):
+            r = check_serial(ast[1], kk, dk, f"{path}<key {kk!r}>") or check_serial(vast, e, dv, f"{path}[{kk!r}]")
+            if r:
+                return r
+        return None
+    if c == 'annot':
+        return check_serial(ast[1], x, d, path)
+    if c in ('optional', 'union'):
+        if c == 'optional' and x is None:
+            return None if d is None else f"{path}: None serialised as {d!r}"
+        return None              # "as some accepting member": decided by the round trip, not by the model
+    return None
+
+
+def _check_serial_dc(spec, x, d, path):
+    opts = spec.get('opts', {})
+    fields = [f for f in classes_gen.effective_fields(spec) if not f.get('exclude')]
+    if opts.get('out_format', 'struct') == 'tuple':
+        if type(d) not in (tuple, list) or len(d) != len(fields):
+            return f"{path}: expected a sequence of {len(fields)} fields, got {d!r}"
+        for f, g in zip(fields, d):
+            r = check_serial(f['type'], getattr(x, f['name']), g, f"{path}.{f['name']}")
+            if r:
+                return r
+        return None
+    names = [classes_gen.out_name(f, opts) for f in fields]
+    if type(d) is not dict or list(d) != names:
+        return f"{path}: expected a dict with keys {names}, got {d!r}"
+    for f, n in zip(fields, names):
+        r = check_serial(f['type'], getattr(x, f['name']), d[n], f"{path}.{f['name']}")
+        if r:
+            return r
+    return None
